@@ -650,7 +650,7 @@ def gen_c02(tier):
             if kn == "delete" and len(o) == 1:
                 pass
             out += '''
-//@ harness: c02_near_%(id)s_%(kn)s tier=%(tier)s timeout=1200 kind=main mem=10
+//@ harness: c02_near_%(id)s_%(kn)s tier=%(tier)s timeout=1200 kind=main mem=4
 //@ encodes: OPERATOR_MAP, LAZY_OPERATOR_MAP, DATA_OPERATOR_MAP (phf lookup incl. SipHash over the edited key)
 //@ bound: every key obtained from "%(o)s" by one %(kn)s at a symbolic position with a symbolic ASCII byte: recognised iff it is itself a documented name
 #[cfg_attr(kani, kani::proof)]
